@@ -592,7 +592,7 @@ func (v *visitor) ConditionalNode(node *ast.ConditionalNode) reflect.Type {
 		return nilType
 	}
 	if t1.AssignableTo(t2) {
-		return t1
+		return t2
 	}
 	return interfaceType
 }
